@@ -423,6 +423,19 @@ pub fn c04_native<G: AffineRepr + 'static>(case: &C04Case, seed: u64) -> Vec<(St
                 out.push((format!("copies with final scalar {} shifted by {} are rejected by batch verification", if on_b { "b" } else { "a" }, what), !ok));
             }
         }
+        // long batches: 18 and 35 members, one altered copy near the front, the rest untouched
+        for (kk, at) in [(18usize, 1usize), (18, 16), (35, 3), (35, 20)] {
+            let altered = R1CSProof::verif_from_parts(pts, [scs[0] + dd, scs[1], scs[2]], InnerProductProof::verif_from_parts(l.to_vec(), r.to_vec(), a, b));
+            let forks: Vec<_> = (0..kk).map(|_| fork_for_verifier(shape, &shr)).collect();
+            let mut ts: Vec<merlin::Transcript> = (0..kk).map(|_| new_verifier_transcript(shape)).collect();
+            let mut insts = vec![];
+            for (i, vt) in ts.iter_mut().enumerate() {
+                insts.push((build_verifier(shape, &forks[i], vt), if i == at { &altered } else { &proof }));
+            }
+            let mut wr = rand_chacha::ChaChaRng::seed_from_u64(seed ^ 0xba7f);
+            let ok = batch_verify(&mut wr, insts, &pc, &bp).is_ok();
+            out.push((format!("batch of {} members with t_x altered in member {}: rejected", kk, at), !ok));
+        }
         // an altered object is still rejected after the untouched proof has been accepted several times (no verdict
         // may be remembered across calls)
         {
